@@ -6,7 +6,7 @@ EXE = 'c06'
 THEOREMS = ['Tbox.C06.C06_send_stream', 'Tbox.C06.C06_send_ghost', 'Tbox.C06.C06_send_drop_only_on_error',
             'Tbox.C06.C06_send_refused_only_on_lasting_error', 'Tbox.C06.C06_send_transient_error_queues',
             'Tbox.C06.C06_send_drop_counterexample_unpatched', 'Tbox.C06.C06_send_progress_any_answers',
-            'Tbox.C06.C06_write_error_keeps_queue', 'Tbox.C06.C06_send_progress_counterexample_disarm',
+            'Tbox.C06.C06_write_error_keeps_queue', 'Tbox.C06.C06_write_error_reported', 'Tbox.C06.C06_write_error_each_pass', 'Tbox.C06.C06_send_progress_counterexample_disarm',
             'Tbox.C06.C06_write_sites_separate', 'Tbox.C06.C06_send_eventually_drains', 'Tbox.C06.C06_read_eintr_harmless',
             'Tbox.C06.C06_read_eintr_counterexample_unpatched', 'Tbox.C06.C06_spill_keeps_order', 'Tbox.C06.C06_spill_bound',
             'Tbox.C06.C06_send_progress', 'Tbox.C06.C06_send_drains', 'Tbox.C06.C06_send_complete_only_when_empty',
@@ -22,9 +22,10 @@ THEOREMS = ['Tbox.C06.C06_send_stream', 'Tbox.C06.C06_send_ghost', 'Tbox.C06.C06
             'Tbox.C06.Net.C06_net_client_conn_order', 'Tbox.C06.Net.C06_net_client_quiet', 'Tbox.C06.Net.C06_net_client_view',
             'Tbox.C06.Net.C06_net_connector_idle_unless_connecting',
             'Tbox.C06.Net.C06_net_client_no_stale_events', 'Tbox.C06.Net.C06_net_client_no_stale_after_reconnect',
+            'Tbox.C06.Net.C06_net_client_link_ids_fresh', 'Tbox.C06.Net.C06_net_client_no_events_of_earlier_link',
             'Tbox.C06.Net.C06_net_connect_fresh_link', 'Tbox.C06.Net.C06_net_default_delay', 'Tbox.C06.Net.C06_net_retry_delay',
             'Tbox.C06.Net.C06_net_retry_on_time', 'Tbox.C06.Net.C06_net_adv_idle', 'Tbox.C06.Net.C06_net_stale_write_event',
-            'Tbox.C06.Net.C06_net_delay_func_stops', 'Tbox.C06.Net.C06_net_delay_func_stops_counterexample',
+            'Tbox.C06.Net.C06_net_delay_func_stops', 'Tbox.C06.Net.C06_net_delay_func_restarts', 'Tbox.C06.Net.C06_net_delay_func_stops_counterexample',
             'Tbox.C06.Kern.C06_kernel_stream', 'Tbox.C06.Kern.C06_active_close_delivers_partial', 'Tbox.C06.Kern.C06_kernel_over_model',
             'Tbox.C06.Kern.C06_peer_reads_to_eof', 'Tbox.C06.Kern.C06_abortive_close_resets', 'Tbox.C06.Kern.C06_unix_close_keeps_queue',
             'Tbox.C06.Kern.C06_linger_close_counterexample', 'Tbox.C06.Kern.C06_close_unread_inbound_counterexample',
@@ -69,11 +70,14 @@ ASSUMPTIONS = ['plumbing cases: at most one connector retries or reconnects at a
                'with SO_LINGER{on,0} (AF_INET) or unread inbound data it discards what has not reached the peer and the peer reads ECONNRESET',
                'C06_active_close_delivers_partial assumes no inbound data is unread at the close (C06_close_unread_inbound_counterexample, replayed on the real code by the `tcp … opu` line; '
                'the same scenario judged against the statement itself, `tcp … opuS`, is the recorded finding active-close-unread-inbound)',
-               'write(2) errno values are oracle inputs (`e<n>`: EINTR 4, EIO 5, ENOMEM 12, ENOSPC 28, EPIPE 32, ECONNRESET 104, ENOBUFS 105; `ea` EAGAIN), each answer addressed '
+               'write(2) errno values are oracle inputs (`e<n>`: EINTR 4, EIO 5, EBADF 9, ENOMEM 12, EFAULT 14, EFBIG 27, ENOSPC 28, EPIPE 32, ENETUNREACH 101, ECONNRESET 104, ENOBUFS 105, ENOTCONN 107, ETIMEDOUT 110, EHOSTUNREACH 113, EDQUOT 122; `ea` EAGAIN), each answer addressed '
                'to the write in send() (`s:`), to the write in the write-ready callback (`c:`) or to whichever comes first; readv: `ea` EAGAIN, `ei` EINTR, `er` ECONNRESET '
                '(other lasting readv errors are not distinguished by the code)',
                'the model is the code with patches/C06-09 (send() keeps the payload on a transient write error, returns false on a lasting one) and C06-10 (EINTR from readv is not a '
-               'read error) applied: until the lead has applied them the check reports the as-found behaviour on /repo as violations (replays corpus/C06/18.., 19..)']
+               'read error) applied: until the lead has applied them the check reports the as-found behaviour on /repo as violations (replays corpus/C06/18.., 19..)',
+               'a reconnect-delay function that restarts its connector (`nkdelayact … restart`: stop() + start() from inside the function) does so when asked about failure k >= 2 and the '
+               'connect() of that start() is refused at once (forced by the harness); a restart whose connect succeeds or stays in progress is not modelled; timer objects released by '
+               'stop() are deleted by a deferred task, i.e. not before the function has returned (so the address compare of the recheck of patches/C06-11 cannot see a reused address)']
 RULE = ('op sequences on one BufferedFd or TcpConnection generated by props/C06/plugin.py: sends of 0 B..256 KiB (thorough: 4 MiB) before '
         'enable / while running / after disable, scripted kernel answers (partial accept, a0, EAGAIN, EINTR, ENOBUFS, ENOMEM, EPIPE, ECONNRESET, EIO, ENOSPC, '
         'each for the write in send(), for the write in the write-ready callback or for either; read chunks, fills ending 0/1/2/1023/1024/1025 bytes behind the '
@@ -85,7 +89,7 @@ RULE = ('op sequences on one BufferedFd or TcpConnection generated by props/C06/
         'queued bytes, leftover re-presentation, multi-chunk read, below-threshold read, EOF, write stall, transient / lasting write error at either site, EINTR read); distinct = distinct op text')
 
 INTERESTING = {'close-with-queue', 'close-unread', 'shut-with-queue', 'pread-left', 'pread-end-eof', 'pread-end-reset', 'tcp-2MiB', 'net-connect-refused', 'net-accept-aborted',
-               'net-stop-while-established', 'net-backlog-reset', 'net-delayfunc-stop', 'net-delayfunc-cleanup', 'net-reconnect-twice-in-op', 'net-kndelay-armed', 'net-retry-zero-delay', 'net-kndelay-set-in-delay', 'net-stale-after-newer',
+               'net-stop-while-established', 'net-backlog-reset', 'net-delayfunc-stop', 'net-delayfunc-cleanup', 'net-delayfunc-restart', 'net-reconnect-twice-in-op', 'net-kndelay-armed', 'net-retry-zero-delay', 'net-kndelay-set-in-delay', 'net-stale-after-newer',
                'send-partial', 'send-eagain', 'send-before-enable', 'send-append', 'send-transient-queued', 'send-eintr', 'send-error-refused', 'enable-with-queued',
                'send-passes-cb-answer', 'wr-passes-send-answer', 'wr-error-transient', 'wr-error-lasting', 'wr-eintr', 'wr-eagain', 'rd-eintr', 'rd-eintr-midstream',
                'rd-with-leftover', 'rd-multi-chunk', 'rd-below-threshold', 'rd-eof', 'rd-fault', 'rd-stopped-early',
@@ -132,7 +136,9 @@ def script(rng, tier, conn, allow_none=True):
     return ','.join(acts)
 
 
-WERRNO = [4, 4, 4, 105, 12, 32, 104, 5, 28]     # EINTR, ENOBUFS, ENOMEM (transient); EPIPE, ECONNRESET, EIO, ENOSPC (lasting)
+WERRNO = [4, 4, 4, 105, 12, 32, 104, 5, 28,     # EINTR, ENOBUFS, ENOMEM (transient); EPIPE, ECONNRESET, EIO, ENOSPC (lasting)
+          110, 113, 107, 101, 9, 14, 27, 122]  # ETIMEDOUT, EHOSTUNREACH, ENOTCONN, ENETUNREACH, EBADF, EFAULT, EFBIG, EDQUOT (lasting)
+WERRNO_ALL = sorted(set(WERRNO))
 
 
 def wsite(rng, tok):
@@ -331,6 +337,27 @@ def gen_wfaults(rng, tier):
     return ops + flush(rng)
 
 
+def gen_we_errno(rng, tier, e):
+    """the write in the write-ready callback fails with errno e (every errno the op file may name, EPIPE / ECONNRESET / ETIMEDOUT
+    among them) once, twice in a row, mixed with another errno and with EAGAIN, behind a short count, on a raw BufferedFd with the
+    write-error callback doing nothing / not set / sending / disabling (+ enabling again) and on a TcpConnection (which sets no
+    write-error callback); the answers of the send() site stay separate; afterwards the kernel lets the queue through.  The
+    `P WE<errno>` lines are the errno handed to the callback."""
+    e2 = rng.choice(WERRNO_ALL)
+    conn = rng.random() < 0.2
+    cb = rng.choice(['-', '-', '-', 'none', 's:ee', 'dis,en', 'dis', 'en', 's:0102,dis'])
+    ops = ['cinit', 'dcb -', 'scb -'] if conn else ['init 3', 'scb ' + rng.choice(['-', '-', 's:aa']), 'wecb ' + cb, 'en']
+    d, n = payload(rng, tier, small=True)
+    k = rng.choice([0, 1, max(n - 1, 0), n // 2])
+    sched = ['s:a%d' % k, 'c:e%d' % e] + rng.choice([[], ['c:e%d' % e], ['c:e%d' % e2], ['c:ea', 'c:e%d' % e], ['c:a1', 'c:e%d' % e2, 'c:e%d' % e]])
+    if rng.random() < 0.3: sched.insert(rng.randrange(len(sched) + 1), 's:e%d' % e2)
+    _count('w-cb-e%d' % e); _count('w-site-cb', len([x for x in sched if x.startswith('c:')])); _count('w-error')
+    ops += ['kw ' + ' '.join(sched), 'send ' + d] + ['wr'] * rng.choice([1, 2, 3]) + ['send ' + rbytes(rng, 2)]
+    ops += [rng.choice(['wr', 'rw'])] * rng.choice([2, 4])
+    if cb in ('dis', 's:0102,dis') and not conn: ops += ['en', 'wr', 'wr']
+    return ops + flush(rng)
+
+
 def gen_spill(rng, tier):
     """the 1 KiB spill buffer of onReadCallback: reads that end exactly at the end of the writable space of the receive buffer
     (`f0`: the spill gets 0 bytes), one byte behind it, 1023 / 1024 bytes behind it (spill full), and asked for one more
@@ -447,9 +474,30 @@ def nscript(rng, allowed):
 def ndelays(rng):
     """setReconnectDelayCalcFunc of the bare connector: seconds after the 1st, 2nd, … failure (1 beyond the table)"""
     if rng.random() < 0.1: return 'nkdelay -'
+    if rng.random() < 0.12:     # … that calls stop() and start() (the connect() of that start() is refused at once): the recheck after the function
+        return 'nkdelayact %s %d restart' % (','.join(str(rng.choice([0, 1, 2, 3, 5])) for _ in range(rng.choice([1, 2, 3, 4]))), rng.choice([2, 2, 3]))
     if rng.random() < 0.3:      # a delay function that calls stop() / cleanup() of its connector (patches/C06-11)
         return 'nkdelayact %s %d %s' % (','.join(str(rng.choice([0, 1, 2, 3])) for _ in range(rng.choice([1, 2, 3]))), rng.choice([1, 1, 2, 2, 3]), rng.choice(['stop', 'stop', 'cleanup']))
     return 'nkdelay ' + ','.join(str(rng.choice([0, 0, 1, 2, 2, 3, 5, 100, 2147483647])) for _ in range(rng.choice([1, 2, 3, 4])))
+
+
+def gen_restart(rng, tier):
+    """a delay function that calls stop() + start() at the k-th failure (that connect() refused at once) with a server listening, so
+    the moment a retry fires is seen as a connected callback: the time is advanced to one millisecond before / exactly to the
+    deadline of the NEW series (delay of failure 1) and to the deadline a re-armed outer timer would have (delay of failure k)"""
+    k = rng.choice([2, 2, 3])
+    tbl = [rng.choice([1, 2, 3, 5, 7]) for _ in range(k)]
+    while tbl[k - 1] == tbl[0]: tbl[k - 1] = rng.choice([0, 1, 2, 3, 4, 6])
+    ops = ['nsinit', 'nsstart', 'nkinit %d' % rng.choice([0, 0, 5]), 'nkdelayact %s %d restart' % (','.join(map(str, tbl)), k), 'nfault refuse 1', 'nkstart']
+    for j in range(1, k):      # failures 2..k by refused retries
+        ops += ['nfault refuse 1', 'nadv %d' % (1000 * tbl[j - 1])]
+    if rng.random() < 0.25: ops.insert(len(ops) - 1, 'nfault socket 1')
+    marks = sorted(set([1000 * tbl[0], 1000 * tbl[k - 1]]))
+    t = 0
+    for m in marks:
+        if m - 1 > t: ops.append('nadv %d' % (m - 1 - t)); t = m - 1
+        if m > t: ops.append('nadv %d' % (m - t)); t = m
+    return ops + ['nadv 1000', rng.choice(['nkstop', 'nkcleanup', 'nkstart']), 'nadv 5000']
 
 
 def gen_net(rng, tier, flavour):
@@ -636,6 +684,13 @@ def gen(rng, tier):
     yield ['malformed: faults', 'kw e11', 'kw e7', 'kw x:ea', 'kw s:', 'kw c:a', 'kw s:e', 'kr f1026', 'kr ej', 'kw s:ea c:e4 e105 s:a3 c:er']
     for _ in range(n // 2):
         yield gen_wfaults(rng, tier)
+    for _ in range(6 if tier == 'quick' else 40):
+        yield gen_restart(rng, tier)
+    # every errno at the write-ready callback site, reported as `P WE<errno>`
+    yield ['init 3', 'scb -', 'wecb -', 'en', 'kw s:a1 c:e32 c:e104 c:e110 c:e4', 'send 010203', 'wr', 'wr', 'wr', 'wr', 'wr', 'wr']
+    for e in WERRNO_ALL:
+        for _ in range(1 if tier == 'quick' else 4):
+            yield gen_we_errno(rng, tier, e)
     for _ in range(n // 3):
         yield gen_spill(rng, tier)
     for _ in range(n // 4):
